@@ -133,7 +133,7 @@ def judge(ctx, sess, proc, rng, ninputs, emit=True):
 
 def plan(tier, seed):
     quick = tier == "quick"
-    return {"nshards": 16, "params": {"soft_s": 1500 if quick else 5400, "nprograms": 40 if quick else 450, "ninputs": 4 if quick else 10}, "hard_timeout_s": 2700 if quick else 9000}
+    return {"nshards": 16, "params": {"soft_s": 1500 if quick else 5400, "nprograms": 40 if quick else 160, "ninputs": 4 if quick else 8}, "hard_timeout_s": 2700 if quick else 9000}
 
 
 def shard(ctx):
